@@ -563,4 +563,67 @@ void h_sp_alloc(void)
     VF_END();
 }
 
+
+#else /* VF_NATIVE: rebuild (hard, soft) through the API, run the real operation, check the view */
+#define NMAX 64
+static cstl_shared_ptr_t vf_sp[NMAX];
+static cstl_weak_ptr_t vf_wp[NMAX];
+static size_t vf_nclr;
+static void vf_nclr_cb(void * p, void * priv) { (void)priv; memset(p, 0x5a, 1); vf_nclr++; }
+static vf_blk_t * vf_nat_build(void)
+{
+    size_t i;
+    VF_IN_SIZE(hard); VF_IN_SIZE(soft); VF_IN_SIZE(sz); VF_IN_BOOL(has_clr);
+    VF_ASSUME(vf_w_hard <= vf_w_soft && vf_w_soft >= 1 && vf_w_soft < NMAX && vf_w_sz >= 1 && vf_w_sz <= 4096);
+    for (i = 0; i < NMAX; i++) { cstl_shared_ptr_init(&vf_sp[i]); cstl_weak_ptr_init(&vf_wp[i]); }
+    cstl_shared_ptr_alloc(&vf_sp[0], vf_w_sz, vf_w_has_clr ? vf_nclr_cb : NULL);
+    VF_ASSUME(cstl_shared_ptr_get(&vf_sp[0]) != NULL);
+    for (i = 1; i < (vf_w_hard ? vf_w_hard : 1); i++) cstl_shared_ptr_share(&vf_sp[0], &vf_sp[i]);
+    for (i = 0; i < vf_w_soft - (vf_w_hard ? vf_w_hard : 1) + (vf_w_hard ? 0 : 1); i++) cstl_weak_ptr_from(&vf_wp[i], &vf_sp[0]);
+    if (vf_w_hard == 0) cstl_shared_ptr_reset(&vf_sp[0]);   /* weak-only state */
+    vf_nclr = 0;
+    return (vf_blk_t *)(vf_w_hard ? vf_sp[0].data.ptr : vf_wp[0].data.ptr);
+}
+void h_sp_reset(void)
+{
+    vf_blk_t * b = vf_nat_build();
+    VF_ASSUME(vf_w_hard >= 1);
+    cstl_shared_ptr_reset(&vf_sp[0]);
+    VF_NCHECK(vf_sp[0].data.ptr == NULL, "reset leaves the pointer empty");
+    VF_NCHECK(vf_nclr == ((vf_w_hard == 1 && vf_w_has_clr) ? 1 : 0), "clear runs exactly when the last owner lets go");
+    if (vf_w_soft > 1) VF_NCHECK(HARD(b) == vf_w_hard - 1 && SOFT(b) == vf_w_soft - 1, "counters decrease by one each");
+}
+void h_lock(void)
+{
+    vf_blk_t * b = vf_nat_build();
+    cstl_shared_ptr_t sp;
+    VF_ASSUME(vf_w_hard < vf_w_soft);
+    cstl_shared_ptr_init(&sp);
+    cstl_weak_ptr_lock(&vf_wp[0], &sp);
+    printf("lock with hard=%zu soft=%zu: sp.ptr=%p hard=%zu soft=%zu\n", vf_w_hard, vf_w_soft, sp.data.ptr, (size_t)HARD(b), (size_t)SOFT(b));
+    if (vf_w_hard >= 1) VF_NCHECK(sp.data.ptr == (void *)b && HARD(b) == vf_w_hard + 1 && SOFT(b) == vf_w_soft + 1, "lock yields an owner while an owner exists");
+    else VF_NCHECK(sp.data.ptr == NULL && HARD(b) == 0 && SOFT(b) == vf_w_soft, "lock yields nothing once the last owner is gone; counters restored");
+    VF_NCHECK(cstl_shared_ptr_get(&sp) == (vf_w_hard >= 1 ? b->up.gp.ptr : NULL), "get of the locked pointer");
+}
+void h_share(void)
+{
+    vf_blk_t * b = vf_nat_build();
+    cstl_shared_ptr_t n;
+    VF_ASSUME(vf_w_hard >= 1);
+    cstl_shared_ptr_init(&n);
+    cstl_shared_ptr_share(&vf_sp[0], &n);
+    VF_NCHECK(n.data.ptr == (void *)b && HARD(b) == vf_w_hard + 1 && SOFT(b) == vf_w_soft + 1 && vf_nclr == 0, "share into an empty pointer: +1/+1");
+}
+void h_same_block(void)
+{
+    vf_blk_t * b = vf_nat_build();
+    VF_ASSUME(vf_w_hard >= 2 && vf_w_hard < vf_w_soft);
+    cstl_shared_ptr_share(&vf_sp[0], &vf_sp[1]);
+    VF_NCHECK(HARD(b) == vf_w_hard && SOFT(b) == vf_w_soft && vf_nclr == 0, "share onto a co-owner: counters unchanged");
+    cstl_weak_ptr_lock(&vf_wp[0], &vf_sp[1]);
+    VF_NCHECK(HARD(b) == vf_w_hard && SOFT(b) == vf_w_soft && vf_nclr == 0, "lock onto a co-owner: counters unchanged");
+}
+struct vf_harness { const char * name; void (*fn)(void); };
+struct vf_harness vf_harnesses[] = {
+    { "h_sp_reset", h_sp_reset }, { "h_lock", h_lock }, { "h_share", h_share }, { "h_same_block", h_same_block }, { NULL, NULL } };
 #endif
